@@ -15,9 +15,15 @@ import (
 	"sync"
 	"time"
 
+	stdsql "database/sql"
+
+	sqlrepository "github.com/bitcoin-sv/block-headers-service/database/repository"
+	dbsql "github.com/bitcoin-sv/block-headers-service/database/sql"
 	"github.com/bitcoin-sv/block-headers-service/domains"
 	"github.com/bitcoin-sv/block-headers-service/internal/chaincfg/chainhash"
 	"github.com/bitcoin-sv/block-headers-service/repository"
+	"github.com/bitcoin-sv/block-headers-service/service"
+	"github.com/jmoiron/sqlx"
 )
 
 func init() { extraOps["conc"] = opConc }
@@ -45,6 +51,7 @@ type schedRepo struct {
 	repository.Headers
 	g     int
 	gt    *gate
+	stmts bool // a reader scheduled at SQL-statement granularity (stmtgate.go)
 	after func(g int, method string) // called while the goroutine still holds the grant
 }
 
@@ -165,6 +172,28 @@ func opConc() error {
 		hookURL = target.URL + "/hook"
 		s.Svc.Notifier.AddChannel(s.Svc.Webhooks)
 	}
+	// readers (scheduled mode): the header service over a second handle of the same file whose statements wait at the gate
+	var reader *service.HeaderService
+	if !free {
+		rdb, err := stdsql.Open("sqlite3_verif_gate", fmt.Sprintf("file:%s?_foreign_keys=true&pooling=true", s.Cfg.Db.SQLite.FilePath))
+		if err != nil {
+			return err
+		}
+		defer rdb.Close()
+		rstore := dbsql.NewHeadersDb(sqlx.NewDb(rdb, "sqlite3"), &s.log)
+		reader = service.NewHeaderService(&repository.Repositories{Headers: sqlrepository.NewHeadersRepository(rstore)}, s.Cfg.P2P, &s.log)
+		stmtEnter = func() func() {
+			id := goid()
+			disp.mu.Lock()
+			v := disp.views[id]
+			disp.mu.Unlock()
+			if v == nil || !v.stmts {
+				return nil
+			}
+			return v.enter("stmt")
+		}
+		defer func() { stmtEnter = nil }()
+	}
 	p := s.Cfg.P2P.GetNetParams()
 	bh := p.GenesisBlock.Header
 	graw := RawHeader{Version: bh.Version, Prev: bh.PrevBlock, Merkle: bh.MerkleRoot, Time: uint32(bh.Timestamp.Unix()), Bits: bh.Bits, Nonce: bh.Nonce}
@@ -283,7 +312,7 @@ func opConc() error {
 			go func() {
 				defer wg.Done()
 				gid := goid()
-				view := &schedRepo{Headers: disp.Headers, g: g, gt: gt}
+				view := &schedRepo{Headers: disp.Headers, g: g, gt: gt, stmts: g >= 100}
 				view.after = func(g int, m string) {
 					if m == "insert" || m == "update" {
 						st, ht, _ := snapshot()
@@ -321,8 +350,14 @@ func opConc() error {
 			cnt := 2 + rng.Intn(4)
 			startG(rg, func() {
 				for k := 0; k < cnt; k++ {
-					// the read itself is one repository call; the snapshot is taken under the same grant
-					tip := s.Svc.Headers.GetTip()
+					// the read is scheduled statement by statement (one statement on the unchanged tree); the table is
+					// snapshotted under each grant
+					var tip *domains.BlockHeader
+					if free {
+						tip = s.Svc.Headers.GetTip()
+					} else {
+						tip = reader.GetTip()
+					}
 					if !free {
 						// what the service ANSWERED (not what the table held under the grant): it must be a tip this very call saw
 						tid := -1
